@@ -27,9 +27,9 @@ def _common(m):
                 recursion=[(r'fix_insert', _rec_ins(m)), (r'fix_remove', _rec_rem(m))], inline_witness=True, witness='any')
 def queries(tier):
     qs = []
-    SYM = 3 if tier == 'quick' else 5          # fully symbolic shape (one query per size): cross-check of the case split
-    MAXS = 8 if tier == 'quick' else 10        # shape case split: one query per (operation, size, shape)
-    MAXS_INS = 6 if tier == 'quick' else 9     # insert keeps the new key symbolic (position decided by the solver): costlier per shape
+    SYM = 3 if tier == 'quick' else 4          # fully symbolic shape (one query per size): cross-check of the case split
+    MAXS = 8 if tier == 'quick' else 9         # shape case split: one query per (operation, size, shape)
+    MAXS_INS = 6 if tier == 'quick' else 8     # insert keeps the new key symbolic (position decided by the solver): costlier per shape
     for (entry, nm, lo, what) in OPS:
         for m in range(lo, SYM + 1):
             qs.append(Q('%s.m%d.symbolic' % (nm, m), 'c06', 'c06_rbtree.c', entry, defs={'M': m}, timeout=1500, mem_gb=8,
